@@ -29,6 +29,8 @@ func VH_C12() {
 	case 2:
 		lg.SetColorMode(false)
 	}
+	// the message: plain, or containing colour markup and entities (it is the panic value as given)
+	vEntryMsg = []string{"m", "q <b>x</b> R&amp;D"}[vChoose(2)]
 	SetDefault(lgi)
 	// the recorded package level is whatever an earlier package-level SetLevel left:
 	// it must not matter once the default logger has been replaced
@@ -101,7 +103,7 @@ func VH_C12() {
 	vAssert(exited == wantExit, "C12: exits iff admitted Fatal severity and interruption enabled (exit)")
 	if panicked {
 		s, isStr := pv.(string)
-		vAssert(isStr && s == "m", "C12: the panic value is the message")
+		vAssert(isStr && s == vEntryMsg, "C12: the panic value is the message")
 	}
 	if exited {
 		vAssert(code == -3, "C12: exit status is -3 (exit)")
